@@ -2,6 +2,8 @@ package main
 
 import (
 	"fmt"
+	"go/ast"
+	"go/types"
 	"reflect"
 	"sort"
 	"strings"
@@ -116,6 +118,61 @@ func corrFieldTags(ctx *Ctx, n int) error {
 		}
 		if cnt := strings.Count(" "+got, " json:"); cnt != 1 {
 			ctx.Res.Violate("field-tags:json-key-count", fmt.Sprintf("the tag `%s` has %d json keys", got, cnt), c)
+		}
+	}
+	return nil
+}
+
+// c08ParamObject: the parameter object of an operation (`<Op>Params`) — one field per query/header/cookie parameter, named
+// after the parameter (or its own x-go-name), typed by its schema; what the schema a parameter refers to calls itself
+// (x-go-name of the component) names the field's type, never the field.
+func c08ParamObject(ctx *Ctx) error {
+	doc := wDoc(J{"/things": J{"get": wOp("listThings", J{"parameters": []interface{}{
+		J{"name": "user_id", "in": "query", "schema": J{"$ref": "#/components/schemas/UserID"}},
+		J{"name": "X-Tenant", "in": "header", "schema": J{"$ref": "#/components/schemas/Tenant"}},
+		J{"name": "q", "in": "query", "x-go-name": "Query", "schema": J{"type": "string"}},
+		J{"name": "limit", "in": "query", "required": true, "schema": J{"type": "integer", "format": "int32"}},
+		J{"name": "sid", "in": "cookie", "schema": J{"$ref": "#/components/schemas/Plain"}}}})}},
+		J{"schemas": J{"UserID": J{"type": "string", "x-go-name": "UserIdentifier"}, "Tenant": J{"type": "string", "x-go-name": "TenantName", "x-oapi-codegen-extra-tags": J{"validate": "required"}},
+			"Plain": J{"type": "string"}}})
+	want := map[string]string{"UserId": "*UserIdentifier", "XTenant": "*TenantName", "Query": "*string", "Limit": "int32", "Sid": "*Plain"}
+	for _, fw := range []string{"chi", "echo"} {
+		spec, err := loadDoc(doc)
+		if err != nil {
+			return err
+		}
+		var cfg codegen.Configuration
+		cfg.PackageName = "api"
+		cfg.Generate.Models = true
+		setFramework(&cfg, fw)
+		src, err := generate(spec, cfg)
+		ctx.Res.Eval(J{"parameter-object": fw}, true)
+		ctx.Res.Count("parameter-object")
+		if err != nil {
+			ctx.Res.Violate("parameter-object:generate:"+fw, "the document with parameters referring to renamed schemas is refused: "+firstLine(err.Error()), J{"doc": doc})
+			continue
+		}
+		f, _, err := parseGo(src)
+		if err != nil {
+			return err
+		}
+		got := map[string]string{}
+		ast.Inspect(f, func(n ast.Node) bool {
+			ts, ok := n.(*ast.TypeSpec)
+			if !ok || ts.Name.Name != "ListThingsParams" {
+				return true
+			}
+			if st, ok := ts.Type.(*ast.StructType); ok {
+				for _, fl := range st.Fields.List {
+					for _, nm := range fl.Names {
+						got[nm.Name] = types.ExprString(fl.Type)
+					}
+				}
+			}
+			return false
+		})
+		if Canon(got) != Canon(want) {
+			ctx.Res.Violate("parameter-object:fields:"+fw, fmt.Sprintf("ListThingsParams has the fields %v; the parameters prescribe %v", got, want), J{"doc": doc, "fw": fw})
 		}
 	}
 	return nil
